@@ -81,25 +81,23 @@ def fltOp (fo : FloatOps) : ArithOp → UInt64 → UInt64 → UInt64
 /-- `evaluate_add / subtract / multiply / divide` on already-grounded numbers. -/
 def evalNums (fo : FloatOps) (op : ArithOp) (ns : List Num) : Res Term :=
   if hasFloat ns then
-    let fs := toFloats fo ns
     match op with
-    | .add => .ok (.flt (fs.foldl fo.add f64Zero))
-    | .mul => .ok (.flt (fs.foldl fo.mul f64One))
-    | .sub => match fs with
+    | .add => .ok (.flt ((toFloats fo ns).foldl fo.add f64Zero))
+    | .mul => .ok (.flt ((toFloats fo ns).foldl fo.mul f64One))
+    | .sub => match toFloats fo ns with
       | [] => .panic
       | x :: xs => .ok (.flt (xs.foldl fo.sub x))
-    | .div => match fs with
+    | .div => match toFloats fo ns with
       | [] => .panic
       | x :: xs => .ok (.flt (xs.foldl fo.div x))
   else
-    let is := toInts ns
     match op with
-    | .add => (foldInt (intOp .add) 0 is).bind fun v => .ok (.int v)
-    | .mul => (foldInt (intOp .mul) 1 is).bind fun v => .ok (.int v)
-    | .sub => match is with
+    | .add => (foldInt (intOp .add) 0 (toInts ns)).bind fun v => .ok (.int v)
+    | .mul => (foldInt (intOp .mul) 1 (toInts ns)).bind fun v => .ok (.int v)
+    | .sub => match toInts ns with
       | [] => .panic
       | x :: xs => (foldInt (intOp .sub) x xs).bind fun v => .ok (.int v)
-    | .div => match is with
+    | .div => match toInts ns with
       | [] => .panic
       | x :: xs => (foldInt (intOp .div) x xs).bind fun v => .ok (.int v)
 
